@@ -19,6 +19,12 @@ RULE = (
     "accepted on a full buffer because read ran) AND a value that was buffered and delivered in a later cycle AND "
     "a refused write on a full buffer (labels also count clear racing write / read, peek-only forwarding)"
 )
+RULE += (
+    "  In one case of three a SECOND, independent caller (its own transaction) of one exclusive method (read / write) requests "
+    "in some of the cycles in which the first caller does, with the same arguments: at most one of the two may be served "
+    "and the outcome must be that of a single request."
+)
+
 ASSUMPTIONS = [
     "amaranth.sim.Simulator is the trusted execution model",
     "readiness is judged behaviourally: a requested call that is not accepted counts as 'not ready'",
